@@ -536,9 +536,14 @@ func HashSetOfValueCopy(vm *Thread, target *HashSetOfValue, source *HashSetOfVal
 		if i == -1 {
 			panic("no room in target hashmap during copy")
 		}
+		existing := target.table[i]
+		if existing.IsUndefined() {
+			target.occupiedSlots++
+			target.elements++
+		} else if existing == DeletedHashSetValue {
+			target.elements++
+		}
 		target.table[i] = entry
-		target.occupiedSlots++
-		target.elements++
 	}
 
 	return value.Undefined
